@@ -538,10 +538,68 @@ def popLink (o : Ops) (s : MSt) : MSt :=
     else if s.c.infeed then ⟨{ s.c with feed := setLastHref (fset s.c.feed (S "link") (.s (fixAmp out))) (fixAmp out) }, rest⟩
     else ⟨s.c, rest⟩
 
+/-! #### stage 5: categories and enclosures (`_start_category`, `_end_category`, `_add_tag`, `_start_enclosure`) -/
+
+def falsyO : Option Str → Bool
+  | none => true
+  | some x => x.isEmpty
+
+def tagItem (term scheme label : Option Str) : List (Str × Option Str) := [(S "term", term), (S "scheme", scheme), (S "label", label)]
+
+/-- `_add_tag(term, scheme, label)`: `tags = context.setdefault("tags", [])`; nothing more when all three are falsy; else append the tag unless
+an equal one is there.  (`tags` can only be absent or the parser's own list: the name has handlers, so the no-handler fallback never writes
+it and `pop()` returns early for it — the other case is left unchanged here.) -/
+def addTag (d : D) (term scheme label : Option Str) : D :=
+  match dget d (S "tags") with
+  | none =>
+    if falsyO term && falsyO scheme && falsyO label then dset d (S "tags") (.l []) else dset d (S "tags") (.l [tagItem term scheme label])
+  | some (.l items) =>
+    if falsyO term && falsyO scheme && falsyO label then d
+    else if items.contains (tagItem term scheme label) then d else dset d (S "tags") (.l (items ++ [tagItem term scheme label]))
+  | some _ => d
+
+/-- `_start_category`: term, scheme (or domain), label from the attributes; `_add_tag`; push `category` -/
+def startCategory (c : Core) (attrsD : List (Str × Str)) : Core × List Elem :=
+  (putContext c (addTag (contextD c) (sget attrsD (S "term")) ((sget attrsD (S "scheme")).orElse fun _ => sget attrsD (S "domain")) (sget attrsD (S "label"))),
+   [⟨S "category", true, []⟩])
+
+/-- the `term` of the last tag is falsy (None or empty) -/
+def lastTermFalsy (items : List (List (Str × Option Str))) : Bool :=
+  match items.reverse with
+  | last :: _ => falsyO ((last.find? (·.1 == S "term")).bind (·.2))
+  | [] => false
+
+/-- `_end_category` after its pop: nothing for an empty value; the value becomes the term of the last tag when that has none (the tag the
+start handler made from scheme / label alone), else a tag of its own -/
+def endCategoryD (d : D) (value : Option Str) : D :=
+  match value with
+  | none => d
+  | some v =>
+    if v.isEmpty then d else
+    match dget d (S "tags") with
+    | some (.l items) =>
+      if !items.isEmpty && lastTermFalsy items then
+        (match items.reverse with
+         | last :: before => dset d (S "tags") (.l (before.reverse ++ [lset last (S "term") (some v)]))
+         | [] => d)
+      else addTag d (some v) none none
+    | none => addTag (dset d (S "tags") (.l [])) (some v) none none
+    | some _ => d
+
+/-- `_start_enclosure`: `_enforce_href` (NOT resolved), `rel = "enclosure"`, appended to `links`; when `links` is not a list the AttributeError is
+taken for "no handler" and the completed attribute dict is stored under `enclosure` -/
+def startEnclosure (c : Core) (attrsD : List (Str × Str)) : Core :=
+  let a := sset (enforceHref attrsD) (S "rel") (S "enclosure")
+  match appendLink (contextD c) (a.map fun kv => (kv.1, some kv.2)) with
+  | some d1 => putContext c d1
+  | none => putContext c (fset (contextD c) (S "enclosure") (.d (dropDecls a)))
+
 def startLG (o : Ops) (c : Core) (kind : Str) (attrsD : List (Str × Str)) : Except Str (Core × List Elem) :=
   if kind == S "link" then startLink o c attrsD
   else if kind == S "guid" then
     .ok ({ c with guidislink := ((sget attrsD (S "ispermalink")).getD (S "true") == S "true") }, [⟨S "id", true, []⟩])
+  else if kind == S "category" then .ok (startCategory c attrsD)
+  else if kind == S "enclosure" then .ok (startEnclosure c attrsD, [])
   else .error (S "unknown stage-4 kind")
 
 /-- `_end_guid`: `value = self.pop("id"); self._save("guidislink", self.guidislink and "link" not in context); if self.guidislink: self._save("link", value)` -/
@@ -554,6 +612,12 @@ def endLG (o : Ops) (s0 : MSt) (kind : Str) : Outcome :=
   if kind == S "link" then
     .ok ⟨endFinish o { (popLink o s0).c with isentrylink := false }, (popLink o s0).stack⟩
   else if kind == S "guid" then .ok ⟨endFinish o (endGuidCore o s0), (pop o s0 (S "id")).stack⟩
+  else if kind == S "category" then
+    .ok ⟨endFinish o (putContext (pop o s0 (S "category")).c (endCategoryD (contextD (pop o s0 (S "category")).c) (popValue o s0 (S "category")))),
+         (pop o s0 (S "category")).stack⟩
+  else if kind == S "enclosure" then
+    -- no `_end_enclosure`: `unknown_endtag` falls back to `self.pop("enclosure")`
+    .ok ⟨endFinish o (pop o s0 (S "enclosure")).c, (pop o s0 (S "enclosure")).stack⟩
   else .unmodelled (S "unknown stage-4 kind")
 
 /-- the dispatch of `unknown_starttag` on the stack-free part of the state: structural handler, other
